@@ -49,6 +49,19 @@ def domain_inputs(tier: str, seed: int, doms: str = "XRBS", scale: float = 1.0) 
         cnt = int((300 if quick else 5000) * scale)
         for g in domains.random_domain(seed * 104729 + 11, cnt, 6, 12 if quick else 18):
             out.append({"dom": "R", "g": [list(s) for s in g]})
+        if quick:
+            # a few larger ones in the quick tier too (block names beyond "9", deeper nesting)
+            for g in domains.random_domain(seed * 104729 + 12, max(1, int(30 * scale)), 13, 18):
+                out.append({"dom": "R", "g": [list(s) for s in g]})
+    if "L" in doms:
+        # small closed CFGs under names whose STRING order differs from the numeric one, that are prefixes of each other, or that
+        # mix cases / underscores: sorted() over names is how the library makes its choices reproducible
+        pool = ["10", "9", "100", "1", "2", "20", "02", "a", "B", "_x", "a_1", "a1", "A"]
+        rngl = random.Random(seed * 6007 + 41)
+        src = [g for n in (3, 4) for g in domains.closed_cfgs(n)] + closed5_canon()
+        for g in rngl.sample(src, min(len(src), int((300 if quick else 3000) * scale))):
+            names = rngl.sample(pool, len(g))
+            out.append({"dom": "N", "named": {names[u]: [names[v] for v in g[u]] for u in range(len(g))}, "lex": True})
     if "K" in doms:
         for g in domains.control_heavy_domain(seed * 15485863 + 29, int((250 if quick else 2500) * scale), pool=6000 if quick else 60000):
             out.append({"dom": "K", "g": [list(s) for s in g]})
